@@ -29,7 +29,7 @@ typedef struct { char id[24]; uint8_t bit; int has_initial; uint8_t initial; } c
 typedef struct { char id[24]; uint8_t addrl, addrh; int steps; int ncal; int cal[10]; int nper; cm_tper_t per[32];
 	int cal_form; /* 0 list; malformed forms for fault injection: 1 `calibration: 120` (scalar), 2 `calibration:` (empty), 3 scalar followed by a further plain key */ } cm_train_t;
 typedef struct { int hex_case;   /* 0: as written by the emitter, 1: all hex digits upper case, 2: all lower case */
-	int reverse_boards;             /* 1: the boards are listed in reverse order in the board and track files (the interface board last) */
+	int reverse_boards;             /* 1: the boards are listed in reverse order in the board and track files (the interface board last); 2: in the track file only; 3: in the board file only */
 	int num_style;                  /* byte-sized values (written 0xNN by the emitter): 0 hexadecimal, 1 decimal, 2 decimal with leading zeros (010 is ten) */
 	int nb; cm_board_t b[CM_MAXB]; int nt; cm_train_t t[CM_MAXT]; char board_txt[6000], track_txt[12000], train_txt[8000]; } cm_model_t;
 
